@@ -12,6 +12,7 @@ From Verif Require Model.Structure Proofs.StructureP.
 From Verif Require Gen.GenOperators.
 Import ListNotations.
 Open Scope string_scope.
+Open Scope list_scope.
 Open Scope Z_scope.
 
 (* ---------------------------------------------------------------------------------------------- *)
@@ -200,7 +201,7 @@ Definition ex_body : list item :=
 Example C16_repeat_example :
   no_end_in_body ex_body /\ coh_block false ex_body /\
   outcome_of (repeat_model 2 ex_env 2 ex_body 512)
-  = OOk [63; 28; 10; 0; 0; 0; 3; 1; 1; 1;   63; 28; 10; 0; 0; 0; 8; 1; 1; 1].
+  = OOk [63; 28; 10; 0; 250; 255; 3; 1; 1; 1;   63; 28; 10; 0; 250; 255; 8; 1; 1; 1].
 Proof. split; [reflexivity|]. split; [apply coh_block_fresh; reflexivity | vm_compute; reflexivity]. Qed.
 
 (* the second copy of './2' does not reuse the first copy's cached value *)
